@@ -4,6 +4,11 @@
 //!   H:null           first group, optional: the application sets NO write callback (all four NULL)
 //!   I:<ops>          ops inside the configure callback (db_ops syntax), at most one, first
 //!   T:<ops>          ops inside one rodbus_server_update_database transaction
+//!   W:<ops>|<hex>    one rodbus_server_update_database transaction whose callback FIRST sends the MBAP request
+//!                    <hex> (a write) to the case's served unit on the client connection and waits 200 ms for an
+//!                    answer, THEN executes <ops> and returns; the answer is collected (after the transaction if it
+//!                    had not arrived inside). Rendered as the op results followed by the reply; the line ends with
+//!                    ` inside=<n>` = number of W requests that were answered while the transaction was running
 //!   X:<S|N>:<hex>    one MBAP request whose PDU is <hex>, addressed to the case's served unit (S, rendered as
 //!                    unit 01) or to a unit id the server does not serve (N, rendered as unit 09)
 //! output line: ';' separated: op results as in db_ops; per X the reply ADU in hex or `-` for silence (decided
@@ -26,6 +31,9 @@ use std::time::Duration;
 struct Batch {
     ops: Vec<String>,
     results: Vec<String>,
+    /// W groups: a request to send from inside the callback, before the ops
+    send_first: Option<(std::net::TcpStream, Vec<u8>)>,
+    answered_inside: bool,
 }
 
 #[derive(Default)]
@@ -187,6 +195,13 @@ unsafe fn exec_op(db: *mut rodbus_ffi::Database, op: &str) -> String {
 
 extern "C" fn run_batch(db: *mut rodbus_ffi::Database, ctx: *mut c_void) {
     let mut b = unsafe { ctx_ref::<Batch>(ctx) }.lock().unwrap();
+    if let Some((mut stream, req)) = b.send_first.take() {
+        let _ = stream.write_all(&req);
+        let _ = stream.set_read_timeout(Some(Duration::from_millis(200)));
+        let mut one = [0u8; 1];
+        b.answered_inside = matches!(stream.peek(&mut one), Ok(n) if n > 0);
+        let _ = stream.set_read_timeout(Some(Duration::from_secs(10)));
+    }
     let ops = b.ops.clone();
     for op in ops {
         let r = unsafe { exec_op(db, &op) };
@@ -198,6 +213,8 @@ fn batch_callback(ops: &str) -> (&'static Mutex<Batch>, ffi::DatabaseCallback) {
     let (state, ctx) = leak_ctx(Batch {
         ops: ops.split(';').filter(|s| !s.is_empty()).map(|s| s.to_string()).collect(),
         results: Vec::new(),
+        send_first: None,
+        answered_inside: false,
     });
     (
         state,
@@ -238,6 +255,18 @@ fn exchange(s: &mut std::net::TcpStream, tx: u16, unit: u8, shown_unit: u8, pdu:
     if s.write_all(&req).is_err() {
         return "ERR:write".into();
     }
+    collect(s, unit, shown_unit)
+}
+
+/// the request is on its way already: send only the sentinel, return the replies that precede the sentinel's reply
+fn exchange_sent(s: &mut std::net::TcpStream, unit: u8, shown_unit: u8, sentinel_unit: u8) -> String {
+    if s.write_all(&[0xFF, 0xFF, 0, 0, 0, 6, sentinel_unit, 3, 0, 0, 0, 1]).is_err() {
+        return "ERR:write".into();
+    }
+    collect(s, unit, shown_unit)
+}
+
+fn collect(s: &mut std::net::TcpStream, unit: u8, shown_unit: u8) -> String {
     let mut answers = Vec::new();
     loop {
         match read_adu(s) {
@@ -315,6 +344,8 @@ fn batch(ffi_rt: &FfiRuntime, lines: &[String]) -> Vec<String> {
             for (k, line) in lines.iter().enumerate() {
                 let unit = (k + 1) as u8;
                 let mut tx: u16 = 1;
+                let mut inside = 0;
+                let mut any_w = false;
                 for g in line.split_whitespace() {
                     if g.starts_with("I:") || g.starts_with("H:") {
                         continue;
@@ -329,6 +360,36 @@ fn batch(ffi_rt: &FfiRuntime, lines: &[String]) -> Vec<String> {
                         if !r.is_empty() {
                             outs[k].push(r.join(";"));
                         }
+                    } else if let Some(w) = g.strip_prefix("W:") {
+                        any_w = true;
+                        let (ops, hexpdu) = w.split_once('|').unwrap();
+                        let pdu = crate::util::unhex(hexpdu);
+                        let mut req = Vec::new();
+                        req.extend(tx.to_be_bytes());
+                        req.extend([0, 0]);
+                        req.extend(((pdu.len() + 1) as u16).to_be_bytes());
+                        req.push(unit);
+                        req.extend(&pdu);
+                        let (state, cb) = batch_callback(ops);
+                        state.lock().unwrap().send_first = Some((stream.try_clone().unwrap(), req));
+                        let rc = ffi::rodbus_server_update_database(server, unit, cb);
+                        if rc != 0 {
+                            outs[k].push(format!("ERR:update_database:{}", param_error_name(rc)));
+                        }
+                        let (r, ins) = {
+                            let st = state.lock().unwrap();
+                            (st.results.clone(), st.answered_inside)
+                        };
+                        if ins {
+                            inside += 1;
+                        }
+                        if !r.is_empty() {
+                            outs[k].push(r.join(";"));
+                        }
+                        // the answer to the request sent from inside the callback, then the sentinel
+                        let _ = stream.set_read_timeout(Some(Duration::from_secs(10)));
+                        outs[k].push(exchange_sent(&mut stream, unit, 1, unit));
+                        tx += 1;
                     } else if let Some(x) = g.strip_prefix("X:") {
                         let (which, hexpdu) = x.split_once(':').unwrap();
                         let pdu = crate::util::unhex(hexpdu);
@@ -339,7 +400,7 @@ fn batch(ffi_rt: &FfiRuntime, lines: &[String]) -> Vec<String> {
                         outs[k].push(format!("ERR:group {g}"));
                     }
                 }
-                outs[k].push(format!("cb={}", apps[k].lock().unwrap().callbacks));
+                outs[k].push(format!("cb={}{}", apps[k].lock().unwrap().callbacks, if any_w { format!(" inside={inside}") } else { String::new() }));
             }
             drop(stream);
             ffi::rodbus_server_destroy(server);
